@@ -21,7 +21,7 @@ theorem land (hn : 0 < n) (hi : i < n) (ha : k % n ≤ i) (hup : f (i + n) = 0)
   unfold between at h1 h2
   omega
 
-theorem step_unproc (hi : i < n)
+theorem step_unproc (_hi : i < n)
     (hf' : ∀ x, f' x = if x = l then k else if x = i then 0 else f x)
     (hloc : l ≤ i ∨ n ≤ l)
     (unproc : ∀ j, i ≤ j → j < n → f j ≠ 0 → f j % n ≤ j) :
